@@ -13,7 +13,7 @@ MANIFEST = {
     "note": "Trusted: Lean kernel + bv_decide certificate axioms; Spec/Offset.lean as the meaning of a displacement field; gen_formats.py; "
             "the harness/driver diff. Thumb/A32 formats are modelled, not proved (no compiled backend uses them).",
 }
-MODS = ["AsmjitVerif.Props.C17"]
+MODS = ["AsmjitVerif.Props.C17", "AsmjitVerif.Props.C17A64"]
 TYPECODE = {"signed": 0, "unsigned": 1, "a64Adr": 2, "a64Adrp": 3}
 M64 = (1 << 64) - 1
 
@@ -83,9 +83,140 @@ def gen_ops(fmts, rng, tier):
             if p + sz <= size:
                 word = int.from_bytes(buf[p:p + sz], "little") & ~mask
                 buf[p:p + sz] = (word & ((1 << (8 * sz)) - 1)).to_bytes(sz, "little")
-            off = rng.choice(boundary_offsets(f, rng, 8))
+            if rng.random() < 0.75:   # mostly representable displacements, so that most writes succeed
+                unit = 1 << dis
+                off = (rng.randrange(0, 1 << bits) if t == "unsigned" else rng.randrange(-(1 << (bits - 1)), 1 << (bits - 1))) * unit & M64
+            else:
+                off = rng.choice(boundary_offsets(f, rng, 8))
             ops.append("write %s %x %d %s" % (fmt_words(f, voff), off, pos, buf.hex() or "-"))
     return ops
+
+
+def decode_bit_masks(n, imms, immr):
+    """generator-side copy of DecodeBitMasks (only used to *propose* inputs; the Lean monitor judges)"""
+    x = (n << 6) | (~imms & 0x3F)
+    if x == 0:
+        return None
+    ln = x.bit_length() - 1
+    if ln < 1:
+        return None
+    levels = (1 << ln) - 1
+    if imms & levels == levels:
+        return None
+    S, R, es = imms & levels, immr & levels, 1 << ln
+    w = (1 << (S + 1)) - 1
+    w = ((w >> R) | (w << (es - R))) & ((1 << es) - 1)
+    v = 0
+    for i in range(0, 64, es):
+        v |= w << i
+    return v
+
+
+def vfp_expand(bits, i):
+    e = {16: 5, 32: 8, 64: 11}[bits]
+    f = bits - e - 1
+    sign, b6 = i >> 7, (i >> 6) & 1
+    expo = ((b6 ^ 1) << (e - 1)) | ((((1 << (e - 3)) - 1) if b6 else 0) << 2) | ((i >> 4) & 3)
+    return (sign << (bits - 1)) | (expo << f) | ((i & 15) << (f - 4))
+
+
+def gen_a64_ops(rng, tier):
+    ops = []
+    quick = tier == "quick"
+    # logical immediates: every architecturally valid value, all one-bit neighbours of a sample, structured + random values
+    vals64, vals32 = set(), set()
+    for n in (0, 1):
+        for s_ in range(64):
+            for r in range(64):
+                v = decode_bit_masks(n, s_, r)
+                if v is not None:
+                    vals64.add(v)
+                    if n == 0:
+                        vals32.add(v & 0xFFFFFFFF)
+    for width, vals in ((64, sorted(vals64)), (32, sorted(vals32))):
+        mask = (1 << width) - 1
+        for v in vals:
+            ops.append("logimm %x %d" % (v, width))
+        neigh = set()
+        for v in (vals if not quick else rng.sample(vals, 250)):
+            for b in range(width):
+                neigh.add(v ^ (1 << b))
+        for v in sorted(neigh):
+            ops.append("logimm %x %d" % (v, width))
+        for _ in range(3000 if quick else 200000):
+            k = rng.random()
+            if k < 0.3:
+                v = rng.getrandbits(width)
+            elif k < 0.6:   # repeated random element
+                es = rng.choice((2, 4, 8, 16, 32))
+                e = rng.getrandbits(es)
+                v = 0
+                for i in range(0, width, es):
+                    v |= e << i
+            else:           # two runs
+                a, b = rng.randrange(width), rng.randrange(width)
+                v = (((1 << a) - 1) ^ ((1 << b) - 1)) ^ (rng.getrandbits(1) * mask)
+                if rng.random() < 0.3:
+                    v ^= 1 << rng.randrange(width)
+            ops.append("logimm %x %d" % (v & mask, width))
+        for v in (0, mask, 1, mask - 1, 1 << (width - 1), mask >> 1):
+            ops.append("logimm %x %d" % (v, width))
+    # fp8: all 256 expansions per format, every one-bit neighbour, random
+    for bits in (16, 32, 64):
+        seen = set()
+        for i in range(256):
+            v = vfp_expand(bits, i)
+            seen.add(v)
+            for b in range(bits):
+                seen.add(v ^ (1 << b))
+        for _ in range(500 if quick else 50000):
+            seen.add(rng.getrandbits(bits))
+        for v in sorted(seen):
+            ops.append("fp %d %x" % (bits, v))
+    # byte masks
+    seen = set()
+    for i in range(256):
+        v = sum(0xFF << (8 * k) for k in range(8) if (i >> k) & 1)
+        seen.add(v)
+        for b in range(0, 64, 1 if not quick else 5):
+            seen.add(v ^ (1 << b))
+    for v in sorted(seen):
+        ops.append("bytemask %x" % v)
+    # add/sub
+    for v in sorted({0, 1, 0xFFE, 0xFFF, 0x1000, 0x1001, 0x1FFF, 0x2000, 0xFFF000, 0xFFF001, 0xFFE000, 0x1000000, 0x1001000, 0xFFFFFF,
+                     (1 << 64) - 1, 1 << 63, 0x800, 0x800000} | {rng.getrandbits(rng.choice((12, 24, 25, 64))) for _ in range(400)} |
+                    {rng.getrandbits(12) << 12 for _ in range(200)}):
+        ops.append("addsub %x" % v)
+    # move-wide sequences: all {0, FFFF, r}^4 half-word patterns, random
+    hw = [0, 0xFFFF, 0x1234, 0x8000, 1]
+    for a in hw:
+        for b in hw:
+            for c in hw:
+                for d in hw:
+                    imm = a | (b << 16) | (c << 32) | (d << 48)
+                    rd = rng.choice((0, 1, 17, 30, 31))
+                    ops.append("movseq %x %d 1" % (imm, rd))
+                    if imm <= 0xFFFFFFFF:
+                        ops.append("movseq %x %d 0" % (imm, rd))
+    for _ in range(1500 if quick else 100000):
+        imm = 0
+        for k in range(4):
+            imm |= rng.choice((0, 0xFFFF, rng.getrandbits(16))) << (16 * k)
+        ops.append("movseq %x %d 1" % (imm, rng.randrange(32)))
+        ops.append("movseq %x %d 0" % (imm & 0xFFFFFFFF, rng.randrange(32)))
+    for sz in range(4):
+        for idx in range(18):
+            ops.append("lmh %d %d" % (sz, idx))
+    return ops
+
+
+def monitor_line(op, ans):
+    w = op.split()
+    if w[0] == "enc":
+        return "mon " + op[4:] + " " + ans
+    if w[0] in ("logimm", "fp", "bytemask", "addsub", "movseq"):
+        return "mon_" + op + " " + ans
+    return None
 
 
 def run(res):
@@ -121,11 +252,13 @@ def run(res):
              [("a64Adr", 4, 5, 21, 0), ("a64Adrp", 4, 5, 21, 12), ("signed", 4, 5, 19, 2), ("signed", 4, 0, 26, 2), ("signed", 4, 5, 14, 2)]
     allf = sorted(set(fmts) | set(proved))
     allf = [f for f in allf if f[0] in TYPECODE]
-    ops = gen_ops(allf, rng, res.tier)
+    ops = gen_ops(allf, rng, res.tier) + gen_a64_ops(rng, res.tier)
     impl, rc, err = vlib.run_lines([str(h)], ops)
     if rc != 0:
-        res.violation("harness aborted (sanitizer or crash), rc=%d: %s" % (rc, err[-1500:]), {"ops_head": ops[:50], "stderr": err[-3000:]},
-                      found_input=True, key="harness-abort")
+        i, tail = vlib.locate_abort([str(h)], ops)
+        first = [l for l in tail.splitlines() if "runtime error" in l or "ERROR: AddressSanitizer" in l][:1]
+        res.violation("real code aborts under ASan/UBSan on %r: %s" % (ops[i], (first or [tail[-300:]])[0]),
+                      {"ops": [ops[i]], "stderr": tail}, found_input=True, key="abort:" + ops[i].split()[0])
         return
     model, rc2, err2 = vlib.run_model("C17", ops)
     if rc2 != 0 or len(model) != len(ops) or len(impl) != len(ops):
@@ -135,11 +268,16 @@ def run(res):
     # monitor: the property predicate on every answer of the implementation
     mon_ops, idx = [], []
     for i, (o, r) in enumerate(zip(ops, impl)):
-        if o.startswith("enc "):
-            mon_ops.append("mon " + o[4:] + " " + r)
+        ml = monitor_line(o, r)
+        if ml:
+            mon_ops.append(ml)
             idx.append(i)
     mon, _, _ = vlib.run_model("C17", mon_ops)
+    if len(mon) != len(mon_ops):
+        res.violation("monitor protocol failure (%d answers for %d lines)" % (len(mon), len(mon_ops)), {}, False, key="protocol")
+        return
     bad = [(idx[k], m) for k, m in enumerate(mon) if m != "good"]
+    res.coverage["monitored_answers"] = len(mon_ops)
     diffs = [i for i in range(len(ops)) if impl[i] != model[i]]
     # bisect range mismatches down to single offsets so that the monitor can judge them
     extra = []
@@ -175,7 +313,7 @@ def run(res):
         i, m = bad[0]
         op = ops[i] if isinstance(i, int) else i
         res.violation("codec not exact on the real code: %s -> monitor says %s (%d such inputs)" % (op, m, len(bad)),
-                      {"ops": [op], "monitor": m, "how": "echo '<op>' | .build/<tree>/asan/h_c17 ; vdriver C17 mon"}, True, key="codec:" + op.split()[1])
+                      {"ops": [op], "monitor": m, "how": "echo '<op>' | .build/<tree>/asan/h_c17 ; vdriver C17 mon"}, True, key="codec:" + op.split()[0])
     elif diffs:
         i = diffs[0]
         res.violation("correspondence model/implementation differs at %r: impl=%s model=%s (%d differing ops); the property predicate "
